@@ -376,3 +376,11 @@ Theorem C08_shutdown_close_must_unregister :
   find current_variant redis_backend (run current_variant redis_backend 300000 init (shutdown_history false)) 2 7 = Found 1 10.
 Proof. exact shutdown_close_must_unregister. Qed.
 Print Assumptions C08_shutdown_close_must_unregister.
+
+(* every theorem above is `forall ttl : N` (ms): lifetimes with a fractional-second part are included.  With ttl = 2.5 s and a
+   heartbeat every 2.2 s the `kept` hypothesis holds for any number of periods; with only the whole seconds of the ttl renewed
+   (seeded C08-25: the Redis CompareAndSwap's EXPIRE) it fails already for the first period *)
+Theorem C08_fractional_lifetime_kept_alive :
+  forall n c k, kept 2500 n c (beats n c 2200 k) 0 = true /\ kept 2000 n c (beats n c 2200 1) 0 = false.
+Proof. exact fractional_lifetime_kept. Qed.
+Print Assumptions C08_fractional_lifetime_kept_alive.
